@@ -146,50 +146,16 @@ def parseOp (ws : List String) : Option Op :=
   | ["krmsess", s, x] => some (.keeperRemoveSession ⟨s, x⟩)
   | _ => none
 
-/-- The (account, specification) pairs a write of a specification removes from a by-owner
-lookup although the written content still names the account: an owner text of the old content
-that is not in the new content while ANOTHER text of the new content denotes the same account
-(finding C14-spec-owner-respelling-drops-index-entry). -/
-def lostByRespelling (id : UUID) (oldOwners newOwners : List Addr) : List (Addr × UUID) :=
-  ((oldOwners.filter (fun a => a ∉ newOwners)).map acctOf).filterMap
-    (fun b => if b ∈ newOwners.map acctOf then some (b, id) else none)
-
-/-- what the known defect explains of the missing by-owner entries after `op` on `pre`:
-(scope-specification pairs, contract-specification pairs) -/
-def newlyLost (pre : State) (op : Op) : List (Addr × UUID) × List (Addr × UUID) :=
-  match op with
-  | .writeScopeSpec sp =>
-    match kget (·.id) pre.scopeSpecs sp.id with
-    | some o => (lostByRespelling sp.id o.owners sp.owners, [])
-    | none => ([], [])
-  | .writeContractSpec sp =>
-    match kget (·.id) pre.contractSpecs sp.id with
-    | some o => ([], lostByRespelling sp.id o.owners sp.owners)
-    | none => ([], [])
-  | _ => ([], [])
-
 /-- The property's conclusions evaluated on the implementation's result `r` and dumped state
 `post`, given the state `pre` before the op (the implementation's previous dump; the model's
-state at the start of a history).  `lostP`/`lostC`: the by-owner entries of scope / contract
-specifications that the known re-spelling defect explains (lost at this or an earlier op of the
-history, still named, still missing). -/
-def verdict (pre : State) (op : Op) (r : String) (post : State) (postDump : String)
-    (lostP lostC : List (Addr × UUID)) : String :=
+state at the start of a history). -/
+def verdict (pre : State) (op : Op) (r : String) (post : State) (postDump : String) : String :=
   if r ≠ "ok" then
     -- a rejected message changes nothing
     if postDump ≠ dump pre then "fail:rejected_op_changed_state" else "ok"
   else
-  -- 1. integrity and lookup exactness (by ACCOUNT) of the dumped state.  A by-owner lookup of
-  -- specifications that is inexact ONLY by missing entries the known defect explains is reported
-  -- under its own clause, and only when nothing else fails.
-  let explainedP := decide (OwnerScopeSpecSound acctOf post) && (missingOwnerScopeSpec acctOf post).all (· ∈ lostP)
-  let explainedC := decide (OwnerCSpecSound acctOf post) && (missingOwnerCSpec acctOf post).all (· ∈ lostC)
-  let vs := violations acctOf post
-  let known := vs.filter fun c =>
-    (c = "lookup_owner_to_scopespec_inexact" && explainedP) || (c = "lookup_owner_to_contractspec_inexact" && explainedC)
-  let knownClause : Option String :=
-    if known.isEmpty then none else some "fail:lookup_owner_to_spec_entry_lost_on_respelled_owner"
-  match vs.filter (fun c => c ∉ known) with
+  -- 1. integrity and lookup exactness (by ACCOUNT: a stored text names the account it decodes to) of the dumped state
+  match violations acctOf post with
   | c :: _ => s!"fail:{c}"
   | [] =>
   -- 2. what the op itself promises
@@ -222,7 +188,7 @@ def verdict (pre : State) (op : Op) (r : String) (post : State) (postDump : Stri
   | none =>
   -- 3. sessions of a scope that does not exist, newly introduced by this op
   let newOrphans := (orphanSessions post).filter (fun i => i ∉ orphanSessions pre)
-  if newOrphans.isEmpty then knownClause.getD "ok"
+  if newOrphans.isEmpty then "ok"
   else match op with
     | .deleteScope id =>
       if newOrphans.all (fun i => i.scope = id ∧ pre.records.all (fun r' => r'.session ≠ i))
@@ -234,9 +200,6 @@ def verdict (pre : State) (op : Op) (r : String) (post : State) (postDump : Stri
 structure DState where
   st : State := {}
   lastImpl : Option String := none
-  /-- by-owner entries (scope / contract specifications) lost to the known re-spelling defect -/
-  lostP : List (Addr × UUID) := []
-  lostC : List (Addr × UUID) := []
 
 def stepOp (rm : State → UUID → State) (d : DState) (ws : List String) (impl : Option String) :
     DState × String × String :=
@@ -249,30 +212,26 @@ def stepOp (rm : State → UUID → State) (d : DState) (ws : List String) (impl
       | .error e => (s, e.toString)
     let out := s!"{res} {dump s'}"
     match impl with
-    | none => ({ d with st := s', lastImpl := none }, out, "-")
+    | none => ({ st := s', lastImpl := none }, out, "-")
     | some i =>
       let iw := words i
       let idump := " ".intercalate iw.tail
       let r := iw.headD ""
-      match parseDump? iw.tail with
-      | none => ({ d with st := s', lastImpl := some idump }, out, "fail:unparsable_dump")
-      | some post =>
-        -- a rejected message changes nothing: compare with the implementation's own previous dump
-        if r ≠ "ok" then
-          ({ d with st := s', lastImpl := some idump }, out,
-            if idump ≠ d.lastImpl.getD (dump s) then "fail:rejected_op_changed_state" else "ok")
-        else
-          -- the state before the op, as the implementation reported it (equal to the model's
-          -- unless an earlier line already disagreed)
-          let pre := match d.lastImpl with
-            | some l => (parseDump? (words l)).getD s
-            | none => s
-          -- entries the known defect explains: lost at this op or before, still missing
-          let (nP, nC) := newlyLost pre op
-          let lostP := (d.lostP ++ nP).filter (· ∈ missingOwnerScopeSpec acctOf post)
-          let lostC := (d.lostC ++ nC).filter (· ∈ missingOwnerCSpec acctOf post)
-          ({ st := s', lastImpl := some idump, lostP := lostP, lostC := lostC }, out,
-            verdict pre op r post idump lostP lostC)
+      let v :=
+        match parseDump? iw.tail with
+        | none => "fail:unparsable_dump"
+        | some post =>
+          -- a rejected message changes nothing: compare with the implementation's own previous dump
+          if r ≠ "ok" then
+            (if idump ≠ d.lastImpl.getD (dump s) then "fail:rejected_op_changed_state" else "ok")
+          else
+            -- the state before the op, as the implementation reported it (equal to the model's
+            -- unless an earlier line already disagreed)
+            let pre := match d.lastImpl with
+              | some l => (parseDump? (words l)).getD s
+              | none => s
+            verdict pre op r post idump
+      ({ st := s', lastImpl := some idump }, out, v)
 
 /-- the code as it is -/
 def driver : Driver where
